@@ -5,7 +5,8 @@ and the blocking SSLStreamTransport against a peer pumped from the selector. Wri
 unique tokens; ciphertext fragmentation down to 1 byte per read, suspensions and virtual delays in the wrapped transport, both
 directions active at once. Oracle: each side's read log equals the other side's write log (checked as a prefix at every read);
 the virtual loop going quiescent with unfinished transfers is the deadlock verdict; no token and no 16-byte plaintext window
-appears in the wire log.
+appears in the wire log. Also: the high-level TLS server torn down behind a late reader, the real asyncio socket adapter with a read
+backlog, and a packet endpoint over TLS with refused / timed-out operations (send_eof, receive under an expired scope) between the writes.
 """
 
 from __future__ import annotations
